@@ -1017,3 +1017,186 @@ Proof.
   eexists. exists 1, 2, (set_prov e_frame [9; 9]). split; [vm_compute; reflexivity|]. split; [reflexivity|].
   repeat constructor; cbn; intuition discriminate.
 Qed.
+
+(* ============================================================================================ *)
+(* Latencies: the deadline may overtake the opening of a stream or the write ([send_bid_lat]).     *)
+(* ============================================================================================ *)
+Ltac lat_step :=
+  match goal with
+  | |- context [if ?b then _ else _] =>
+      let E := fresh "E" in destruct b eqn:E; cbn -[N.max N.add N.leb N.ltb]
+  | |- context [match ?v ?c with Ok _ => _ | Err _ => _ | Panic => _ end] =>
+      let V := fresh "V" in destruct (v c) eqn:V; cbn -[N.max N.add N.leb N.ltb]
+  end.
+Ltac lat_props :=
+  repeat match goal with
+         | H : (_ <=? _) = true |- _ => apply N.leb_le in H
+         | H : (_ <=? _) = false |- _ => apply N.leb_gt in H
+         | H : (_ <? _) = true |- _ => apply N.ltb_lt in H
+         | H : (_ <? _) = false |- _ => apply N.ltb_ge in H
+         end.
+Ltac lat_open tr p :=
+  destruct tr as [hn hw hr ps]; unfold provider_lat, wait_from;
+  cbn [ctx_newstream ctx_write ctx_read pick_send];
+  destruct (p_reply p) eqn:R; cbn -[N.max N.add N.leb N.ltb].
+
+(* one goroutine on a transport whose three operations watch the context *)
+Lemma provider_lat_ctx cmp tr lat vf sent D p :
+  ctx_newstream tr = true -> ctx_write tr = true -> ctx_read tr = true ->
+  let g := provider_lat cmp tr lat vf sent D p in
+  l_addr g = p_addr p /\
+  (exists T, l_finish g = At T /\ T <= D) /\
+  (In OpWrite (l_ops g) -> open_d (lat p) < D /\ p_reply p <> RNewStreamErr) /\
+  (In OpRead (l_ops g) -> open_d (lat p) + write_d (lat p) < D /\ p_reply p <> RWriteErr) /\
+  (l_written g = [sent] <-> In OpWrite (l_ops g)) /\
+  (l_written g = [] \/ l_written g = [sent]) /\
+  (forall c, l_out g = GDeliver c -> In OpRead (l_ops g)).
+Proof.
+  intros H1 H2 H3. lat_open tr p; cbn in H1, H2, H3; subst hn hw hr; cbn -[N.max N.add N.leb N.ltb];
+    repeat lat_step; lat_props;
+    (repeat split; try (eexists; split; [reflexivity|lia]); cbn;
+     try discriminate; try tauto; try (intros; intuition discriminate); try lia;
+     try (intros [Hx|Hx]; try discriminate; intuition (try discriminate; try lia))).
+Qed.
+
+(* the only way a goroutine hands a value over, on every transport and for all latencies *)
+Lemma provider_lat_deliver cmp tr lat vf sent D p c :
+  l_out (provider_lat cmp tr lat vf sent D p) = GDeliver c ->
+  exists c0 rest a t, p_reply p = RFrames c0 rest /\ vf c0 = Ok a /\ c = set_prov c0 a /\
+                      (cmp = true -> c_bid c0 = Some sent) /\
+                      l_finish (provider_lat cmp tr lat vf sent D p) = At t /\
+                      (ctx_read tr = true -> t < D).
+Proof.
+  lat_open tr p; repeat lat_step; try discriminate;
+    intros H; inversion H; subst;
+    match goal with R : p_reply p = RFrames ?f ?r, V : vf ?f = Ok ?a |- _ => exists f, r, a end;
+    eexists; (repeat split; try reflexivity; auto);
+    try (intros ->; cbn [andb] in *);
+    try match goal with
+        | E : negb (obid_eqb _ _) = false |- _ =>
+            apply negb_false_iff in E; apply obid_eqb_eq in E; exact E
+        | E : true && negb (obid_eqb _ _) = false |- _ =>
+            cbn in E; apply negb_false_iff in E; apply obid_eqb_eq in E; exact E
+        end;
+    try discriminate; lat_props; try lia.
+Qed.
+
+(* with all latencies 0 the model is the operational model of SendBid used everywhere above *)
+Definition lat0 : peer -> latency := fun _ => mkLat 0 0.
+Definition forget_ops (g : ltrace) : otrace := mkO (l_addr g) (l_written g) (l_out g) (l_finish g).
+Definition forget_run (r : lrun) : xrun :=
+  mkXRun (lr_sent r) (map (fun g => (l_addr g, l_written g)) (lr_traces r)) (lr_delivered r) (lr_close r).
+Definition forget_result (s : lresult) : xresult :=
+  match s with LErr => XErr | LPanic => XPanic | LRun r => XRun (forget_run r) end.
+
+Lemma provider_lat0 cmp tr vf sent D p :
+  forget_ops (provider_lat cmp tr lat0 vf sent D p) = provider_op cmp tr vf sent D p.
+Proof.
+  unfold forget_ops, provider_op, wait. lat_open tr p; unfold lat0; cbn -[N.max N.add N.leb N.ltb];
+    rewrite ?N.max_0_l, ?N.add_0_l;
+    repeat (lat_step; rewrite ?N.max_0_l, ?N.add_0_l); reflexivity.
+Qed.
+
+Theorem lat0_is_op tr o a view D :
+  forget_result (send_bid_lat tr lat0 o a view D) = send_bid_op tr o a view D.
+Proof.
+  unfold send_bid_lat, send_bid_op, send_bid_op_gen.
+  destruct (construct o a) as [sent| |]; try reflexivity.
+  destruct (get_peers TProvider view) as [|p0 rest0]; [reflexivity|].
+  assert (E : map (provider_op true tr (verify o) sent D) (p0 :: rest0) =
+              map forget_ops (map (provider_lat true tr lat0 (verify o) sent D) (p0 :: rest0))).
+  { rewrite map_map. apply map_ext. intros q. symmetry. apply provider_lat0. }
+  rewrite E. generalize (map (provider_lat true tr lat0 (verify o) sent D) (p0 :: rest0)). intros gs.
+  assert (C : existsb x_crashed (map forget_ops gs) = existsb l_crashed gs).
+  { induction gs as [|g gs IH]; cbn; [reflexivity|]. rewrite IH. reflexivity. }
+  rewrite C. destruct (existsb l_crashed gs); [reflexivity|]. clear C E. cbn. unfold forget_run. cbn. f_equal. f_equal.
+  - rewrite map_map. reflexivity.
+  - induction gs as [|g gs IH]; [reflexivity|]. cbn [flat_map map]. rewrite <- IH. f_equal.
+  - rewrite map_map. f_equal.
+Qed.
+
+Lemma send_bid_lat_run tr lat o a view D r :
+  send_bid_lat tr lat o a view D = LRun r ->
+  exists sent, construct o a = Ok sent /\
+    get_peers TProvider view <> [] /\
+    r = mkLRun sent (map (provider_lat true tr lat (verify o) sent D) (get_peers TProvider view))
+               (flat_map l_delivery (map (provider_lat true tr lat (verify o) sent D) (get_peers TProvider view)))
+               (tmax_list (map l_finish (map (provider_lat true tr lat (verify o) sent D) (get_peers TProvider view)))).
+Proof.
+  unfold send_bid_lat. destruct (construct o a) as [sent| |]; try discriminate.
+  destruct (get_peers TProvider view) as [|p0 rest0] eqn:P; [discriminate|].
+  destruct (existsb l_crashed _); [discriminate|].
+  intros H; inversion H; subst. exists sent. repeat split; congruence.
+Qed.
+
+Lemma tmax_list_bounded l D :
+  (forall x, In x l -> exists t, x = At t /\ t <= D) -> exists T, tmax_list l = At T /\ T <= D.
+Proof.
+  induction l as [|x l IH]; intros H; [exists 0; split; [reflexivity|lia]|].
+  change (tmax_list (x :: l)) with (tmax x (tmax_list l)).
+  destruct (H x (or_introl eq_refl)) as (t & -> & Ht).
+  destruct IH as (T & -> & HT); [intros y Hy; apply H; right; exact Hy|].
+  exists (N.max t T). split; [reflexivity|lia].
+Qed.
+
+(* The deadline overtaking the opening of a stream or the write.  For every provider list, all
+   latencies, all reply scripts and every deadline D, on a transport whose three operations watch
+   the context: the channel is closed at some T <= D; every delivery is a verified commitment
+   embedding the bid sent, made before D; and per provider (one trace each, in topology order) no
+   operation follows one that had not completed by D -- WriteMsg is issued only if the stream was
+   open before D, ReadMsg (hence verification and delivery) only if the write had completed before
+   D; the bid is handed to WriteMsg exactly when WriteMsg is issued, and nothing else ever is. *)
+Theorem fanout_deadline tr lat o a view D r :
+  ctx_newstream tr = true -> ctx_write tr = true -> ctx_read tr = true ->
+  send_bid_lat tr lat o a view D = LRun r ->
+  construct o a = Ok (lr_sent r) /\
+  (exists T, lr_close r = At T /\ T <= D) /\
+  (forall t c, In (t, c) (lr_delivered r) ->
+     t < D /\
+     exists p c0 rest addr,
+       In p view /\ p_type p = TProvider /\ p_reply p = RFrames c0 rest /\
+       open_d (lat p) + write_d (lat p) < D /\
+       verify o c0 = Ok addr /\ c = set_prov c0 addr /\ c_prov c = addr /\ c_bid c = Some (lr_sent r)) /\
+  Forall2 (fun p g =>
+             l_addr g = p_addr p /\
+             (In OpWrite (l_ops g) -> open_d (lat p) < D /\ p_reply p <> RNewStreamErr) /\
+             (In OpRead (l_ops g) -> open_d (lat p) + write_d (lat p) < D /\ p_reply p <> RWriteErr) /\
+             (l_written g = [lr_sent r] <-> In OpWrite (l_ops g)) /\
+             (l_written g = [] \/ l_written g = [lr_sent r]))
+          (get_peers TProvider view) (lr_traces r).
+Proof.
+  intros H1 H2 H3 H. apply send_bid_lat_run in H. destruct H as (sent & Cs & Hne & ->).
+  cbn [lr_sent lr_close lr_delivered lr_traces]. split; [exact Cs|]. split; [|split].
+  - apply tmax_list_bounded. intros x Hx. apply in_map_iff in Hx. destruct Hx as (g & <- & Hg).
+    apply in_map_iff in Hg. destruct Hg as (p & <- & _).
+    destruct (provider_lat_ctx true tr lat (verify o) sent D p H1 H2 H3) as (_ & F & _). exact F.
+  - intros t c HIn. apply in_flat_map in HIn. destruct HIn as (g & Hg & Hd).
+    apply in_map_iff in Hg. destruct Hg as (p & <- & Hp). apply get_peers_spec in Hp. destruct Hp as [Hv Ht].
+    unfold l_delivery in Hd.
+    destruct (l_out (provider_lat true tr lat (verify o) sent D p)) as [d| |] eqn:G; try (destruct Hd).
+    pose proof G as G'. apply provider_lat_deliver in G'.
+    destruct G' as (c0 & rest & addr & t' & R & V & -> & B & F & T). rewrite F in Hd.
+    destruct Hd as [Hd|[]]. inversion Hd; subst.
+    destruct (provider_lat_ctx true tr lat (verify o) sent D p H1 H2 H3) as (_ & _ & _ & Rd & _ & _ & Dl).
+    split; [apply T; exact H3|]. exists p, c0, rest, addr.
+    destruct (Rd (Dl _ G)) as [Rd1 _]. repeat split; auto.
+  - clear Hne. induction (get_peers TProvider view) as [|p ps0 IH]; cbn; constructor; auto.
+    destruct (provider_lat_ctx true tr lat (verify o) sent D p H1 H2 H3) as (A & _ & W & Rd & Wr & Ws & _).
+    split; [exact A|]. split; [exact W|]. split; [exact Rd|]. split; [exact Wr|exact Ws].
+Qed.
+
+(* non-vacuity: deadline 5; the first provider's stream opens at 2 and its write completes at 3, it
+   answers at 4 and is delivered; the second one's stream opens only at 6: no write, no read; the
+   third one's stream opens at 1 but the write would complete at 7: no read *)
+Definition e_lat (p : peer) : latency :=
+  if bytes_eqb (p_addr p) [1] then mkLat 2 1 else if bytes_eqb (p_addr p) [2] then mkLat 6 0 else mkLat 1 6.
+Example fanout_deadline_example :
+  send_bid_lat ctx_transport e_lat w_oracles w_args
+    [mkPeer [1] TProvider (RFrames e_frame []) 4; mkPeer [2] TProvider (RFrames e_frame []) 1;
+     mkPeer [3] TProvider (RFrames e_frame []) 1] 5 =
+  LRun (mkLRun w_sent
+         [mkL [1] [OpNewStream; OpWrite; OpRead; OpVerify] [w_sent] (GDeliver (set_prov e_frame [9; 9])) (At 4);
+          mkL [2] [OpNewStream] [] GNothing (At 5);
+          mkL [3] [OpNewStream; OpWrite] [w_sent] GNothing (At 5)]
+         [(4, set_prov e_frame [9; 9])] (At 5)).
+Proof. vm_compute. reflexivity. Qed.
